@@ -657,7 +657,10 @@ fn deser_col_specs_generic<'frame, 'result>(
     make_col_spec: fn(&'frame str, ColumnType<'result>, TableSpec<'frame>) -> ColumnSpec<'result>,
     deser_type: fn(&mut &'frame [u8]) -> StdResult<ColumnType<'result>, CqlTypeParseError>,
 ) -> StdResult<Vec<ColumnSpec<'result>>, ColumnSpecParseError> {
-    let mut col_specs = Vec::with_capacity(col_count);
+    // The count comes from the wire: do not preallocate more entries than the
+    // remaining bytes can possibly hold (a column spec takes at least 4 bytes:
+    // a [string] name and a [short] type id).
+    let mut col_specs = Vec::with_capacity(col_count.min(buf.len() / 4));
     for col_idx in 0..col_count {
         let table_spec = match global_table_spec {
             // If global table spec was provided, we simply clone it to each column spec.
@@ -933,7 +936,9 @@ fn deser_prepared_metadata(
     let pk_count: usize =
         types::read_int_length(buf).map_err(PreparedMetadataParseError::PkCountParseError)?;
 
-    let mut pk_indexes = Vec::with_capacity(pk_count);
+    // The count comes from the wire: do not preallocate more entries than the
+    // remaining bytes can possibly hold (each index is a [short]).
+    let mut pk_indexes = Vec::with_capacity(pk_count.min(buf.len() / 2));
     for i in 0..pk_count {
         pk_indexes.push(PartitionKeyIndex {
             index: types::read_short(buf)
